@@ -4,6 +4,7 @@ import SwcVerif.Model.Geom
 import SwcVerif.Model.SwcText
 import SwcVerif.Model.Branches
 import SwcVerif.Model.Sort
+import SwcVerif.Model.Dsu
 
 def dispatch (op : String) (args : List String) : String :=
   match op with
@@ -16,6 +17,8 @@ def dispatch (op : String) (args : List String) : String :=
   | "branches" | "paths" | "furcs" | "tips" | "brtable" => Branches.handle op args
   | "sort" => SortM.handle args
   | "issorted" => SortM.handleIsSorted args
+  | "dsu" => Dsu.handleDsu args
+  | "hascyclic" | "bifurcate" | "singleroot" | "getdsu" | "somas" | "nearest" => Dsu.handleCheck op args
   | "swcline" => SwcText.handleLine args
   | "swcread" => SwcText.handleRead args
   | "swcwrite" => SwcText.handleWrite args
